@@ -1,5 +1,5 @@
 (* C20 — what the correspondence check evaluates on every case. *)
-From Yv Require Export Common.Base C20.Model C20.Spec C20.Tables C20.Getopts.
+From Yv Require Export Common.Base C20.Model C20.Spec C20.Tables C20.Getopts C20.Kill C20.SetBuiltin C20.Typeset.
 
 (* What the virtual shell did with one script: exit status of the built-in
    (negative: the shell panicked or hung), whether nothing was written to the
@@ -47,7 +47,22 @@ Inductive case :=
    characters, option-argument), the option left without its argument at the
    end (if any), the operands, and one run per spelling *)
 | CGetopts (raw : str) (unknown : list N) (os : list cocc) (missing : option nat)
-           (ops : list str) (runs : list grun).
+           (ops : list str) (runs : list grun)
+(* kill's own parser (kill::syntax::parse, portable off): the system's signal
+   table, SIGTERM, the arguments and what it returned ([None]: it panicked) *)
+| CKill (t : sigtable) (term : Z) (args : list str) (r : option kresult)
+(* set's own parser (set::syntax::parse, portable off): the tables of
+   parse_short / parse_long for the letters and names in play, and either one
+   vector with its result, or an invocation (option occurrences with their new
+   states, positional parameters) written in several spellings *)
+(* typeset's own long-option rule (typeset::syntax::parse with `--NAME`):
+   the table's long names, the name, what it answered; [real]: the table is
+   typeset's own ALL_OPTIONS, for which the rule must agree with the generic
+   parser's *)
+| CTypesetLong (real : bool) (specs : list ospec) (name : str) (r : tres)
+| CSetRaw (sht : short_table) (lt : long_table) (args : list str) (r : option sres)
+| CSetSpell (sht : short_table) (lt : long_table) (os : list occurrence) (p : option (list str))
+            (spellings : list (list str * sres)).
 
 Definition outcome_eqb (a b : outcome) : bool :=
   Z.eqb (out_status a) (out_status b) && Bool.eqb (out_stderr_empty a) (out_stderr_empty b)
@@ -137,6 +152,17 @@ Fixpoint run_getopts (raw : str) (unknown : list N) (os : list cocc) (missing : 
            end
   end.
 
+Fixpoint run_set_spellings (sht : short_table) (lt : long_table) (os : list occurrence)
+    (p : option (list str)) (l : list (list str * sres)) (acc : verdict) : verdict :=
+  match l with
+  | [] => acc
+  | (args, r) :: l' =>
+      (* the generator's part: the model reads the spelling as the invocation *)
+      if negb (is_invocation os p (sparse sht lt args)) then 99%N
+      else if negb (is_invocation os p r) then 16%N
+      else run_set_spellings sht lt os p l' acc
+  end.
+
 Definition run_case (c : case) : verdict :=
   match c with
   | CParse specs m args r => run_parse specs m args r
@@ -153,6 +179,22 @@ Definition run_case (c : case) : verdict :=
                               | None => true | Some _ => false end) malformed)
   | CBespoke _ valid malformed base => run_shell valid malformed base true
   | CGetopts raw unknown os missing ops runs => run_getopts raw unknown os missing ops runs 0%N
+  | CTypesetLong real specs name r =>
+      if real && negb (tres_eqb r (common_match specs name)) then 17%N
+      else if tres_eqb (tmatch specs name) r then 0%N else 1%N
+  | CSetRaw sht lt args None => 5%N
+  | CSetRaw sht lt args (Some r) =>
+      match sparse sht lt args with
+      | SOutside => 99%N
+      | m => if sres_eqb m r then 0%N else 1%N
+      end
+  | CSetSpell sht lt os p l => run_set_spellings sht lt os p l 0%N
+  | CKill t term args None => 5%N
+  | CKill t term args (Some r) =>
+      match oracle_kill t term args r with
+      | Some k => (2 + k)%N
+      | None => if kresult_eqb (kparse t term args) r then 0%N else 1%N
+      end
   end.
 
 Definition run_cases := run_cases_with run_case.
